@@ -278,6 +278,21 @@ def c05(tier, seed, F):
                 for p in pts:
                     db.insert(copy.deepcopy(p), compact_key_prefixes=compact)
                     exp.append(p)
+                # two rewrites through the live object (the handle is reopened after each): what it reads back afterwards, and what ends up in the file, must still be the points
+                for rw in range(2):
+                    db.insert(Point(time=T0, measurement="zz sentinel", fields={"s": rw}), compact_key_prefixes=compact)
+                    db.remove(MeasurementQuery() == "zz sentinel")
+                    n += 1
+                    try:
+                        live = db.all(sorted=False)
+                        badl = [(e, g) for e, g in zip(exp, live) if not (e == g)]
+                        if len(live) != len(exp) or badl:
+                            e, g = badl[0] if badl else (None, None)
+                            F.note("after rewrite %d the live database reads the points back changed (dialect %s): %s" % (rw + 1, kw, short(dict(measurement=e.measurement, tags=e.tags)) + " -> " + repr((g.measurement, g.tags))[:80] if e is not None else "%d instead of %d points" % (len(live), len(exp))))
+                            break
+                    except Exception as ex:
+                        F.note("after rewrite %d reading through the live database raises %s (dialect %s)" % (rw + 1, type(ex).__name__, kw))
+                        break
                 db.close()
                 n += len(pts)
                 try:
